@@ -210,6 +210,7 @@ type connState struct {
 	broker    *Broker
 	queue     []*Req
 	busy      bool
+	midFrame  bool // the first part of a split response has been sent, the rest has not
 	authed    bool
 	saslMech  string
 	saslConv  any
@@ -276,6 +277,10 @@ type Cluster struct {
 	// CutSilent: after the bytes of a "cut-exact" fault the broker neither
 	// closes nor sends anything more on the connection
 	CutSilent bool
+	// OutOfOrder: a slow response does not hold up the requests queued behind
+	// it on the connection; their responses may overtake it (Kafka brokers
+	// answer in order; clients match responses by correlation id)
+	OutOfOrder bool
 	// SplitAt, when set, chooses where a "split" response is interrupted
 	SplitAt func(r *Req, n int) int
 	// MetaOrder: order in which metadata responses list a topic's partitions
@@ -554,8 +559,36 @@ func (b *Broker) respond(c *Conn, st *connState, r *Req, body rc.Msg) {
 		cut, rst = cl.CutExact(r)
 	}
 	r.RespAt = cl.S.Now()
+	overtaken := cl.OutOfOrder && r.Fault == "slow"
+	if overtaken {
+		defer func() {
+			st.busy = false
+			b.pump(c, st)
+		}()
+	}
 	cl.S.After(delay, fmt.Sprintf("c%d:resp#%d", c.ID, r.Hdr.CorrelationID), func() {
 		if c.ServerDead() {
+			return
+		}
+		if overtaken {
+			// delivered whenever its delay is over, whatever else the
+			// connection is doing by then — but never inside another frame
+			var deliver func()
+			deliver = func() {
+				if c.ServerDead() {
+					return
+				}
+				if st.midFrame {
+					cl.S.After(time.Millisecond, fmt.Sprintf("c%d:resp#%d", c.ID, r.Hdr.CorrelationID), deliver)
+					return
+				}
+				c.Deliver(frame)
+				r.RespFull = true
+				r.RespFullAt = cl.S.Now()
+				r.RespFullStep = cl.S.Step
+				cl.S.Count("response-out-of-order")
+			}
+			deliver()
 			return
 		}
 		if cut >= 0 {
@@ -593,7 +626,9 @@ func (b *Broker) respond(c *Conn, st *connState, r *Req, body rc.Msg) {
 			span := int((cl.F.SplitMax - cl.F.SplitMin) / time.Millisecond)
 			pause := cl.F.SplitMin + time.Duration(cl.S.T.Intn("fault", span+1))*time.Millisecond
 			c.Deliver(frame[:k])
+			st.midFrame = true
 			cl.S.After(pause, fmt.Sprintf("c%d:resp-rest#%d", c.ID, r.Hdr.CorrelationID), func() {
+				st.midFrame = false
 				if c.ServerDead() {
 					return
 				}
